@@ -45,6 +45,7 @@ type spec struct {
 	rs        string
 	inCSV     bool
 	outMode   string
+	keepTaint        bool // the record is being replaced through an NF-relative index: attribution stays
 	rsEmptySomewhere bool // the script sets RS="" at some point
 	taint     string // input class of a known-finding trigger seen since the last new record
 }
@@ -121,7 +122,9 @@ func (sp *spec) setRecord(t string) {
 	f, ok := sp.split(t)
 	sp.fields, sp.known = f, ok
 	sp.nfTainted = false
-	sp.taint = ""
+	if !sp.keepTaint {
+		sp.taint = ""
+	}
 	if sp.fs == " " && !sp.inCSV && hasExoticSpace(t) {
 		sp.taint = "record-fs-space-nonblank-whitespace"
 	}
@@ -141,11 +144,17 @@ func (sp *spec) evalIdx(i idx) (n float64, ok bool, class string) {
 		}
 		return t, true, "const"
 	case 'n':
+		if sp.nfTainted && sp.taint == "" {
+			sp.taint = "setnf-nonintegral-or-string" // NF itself enters the index arithmetic
+		}
 		if !sp.known {
 			return 0, false, "nf-relative"
 		}
 		return float64(len(sp.fields) + i.D), true, "nf-relative"
 	default:
+		if sp.nfTainted && sp.taint == "" {
+			sp.taint = "setnf-nonintegral-or-string"
+		}
 		if !sp.known {
 			return 0, false, "nf-relative"
 		}
@@ -421,20 +430,25 @@ func checkScript(s script, impl []string) []hx.Failure {
 	var fails []hx.Failure
 	curOp := op{}
 	curBeyond := false
+	prevTaint := ""
 	// Attribution of a failure to an input class.  The four input classes of the known
 	// findings get one fixed oracle name each; everything else is classified by the last
 	// mutating operation and the equation that failed.
 	fail := func(step int, oracle, want, got string) {
 		class := lastMut
 		nfOnly := oracle == "NF = number of fields"
+		taint := sp.taint
+		if taint == "" {
+			taint = prevTaint
+		}
 		switch {
-		case strings.HasPrefix(lastMut, "getline-field") || sp.taint == "getline-field":
+		case strings.HasPrefix(lastMut, "getline-field") || taint == "getline-field":
 			class, oracle = "getline-field", "getline $i assigns field i"
 		case curBeyond && strings.HasPrefix(oracle, "out-of-range"):
 			class, oracle = "setfield-idx-beyond-int64", "a field index above maxFieldIndex is rejected with an error"
-		case sp.taint == "record-fs-space-nonblank-whitespace":
-			class, oracle = sp.taint, "FS=\" \" separates on runs of blanks (space, tab, newline) only"
-		case sp.nfTainted && (nfOnly || strings.HasPrefix(lastMut, "modnf")):
+		case taint == "record-fs-space-nonblank-whitespace":
+			class, oracle = taint, "FS=\" \" separates on runs of blanks (space, tab, newline) only"
+		case taint == "setnf-nonintegral-or-string" || (sp.nfTainted && (nfOnly || strings.HasPrefix(lastMut, "modnf"))):
 			class, oracle = "setnf-nonintegral-or-string", "NF = number of fields"
 		}
 		fails = append(fails, hx.Failure{Class: class, Oracle: oracle, Detail: detail(s, impl, step, want, got)})
@@ -470,7 +484,12 @@ func checkScript(s script, impl []string) []hx.Failure {
 		if isMutator(o.K) {
 			lastMut = opClass(sp, o)
 		}
+		prevTaint = sp.taint
 		curOp, curBeyond = o, false
+		sp.keepTaint = (o.K == "S" || o.K == "M" || o.K == "L") && o.I.Kind != 'c'
+		if o.K == "M" {
+			sp.keepTaint = true // the new text derives from the old one
+		}
 		if o.K == "S" || o.K == "M" || o.K == "L" {
 			_, _, c := sp.evalIdx(o.I)
 			curBeyond = c == "beyond-int64"
@@ -554,7 +573,10 @@ func checkScript(s script, impl []string) []hx.Failure {
 		case "P":
 			sp.rs = o.T
 		case "I":
+			// the split is lazy in the implementation and uses the input mode of that moment;
+			// the property text does not fix this: expectation unknown until the next full view
 			sp.inCSV = o.T != "d"
+			sp.known = false
 		case "U":
 			sp.outMode = o.T
 		case "V":
@@ -626,7 +648,6 @@ func checkScript(s script, impl []string) []hx.Failure {
 			if f, ok := parseAll(gotOut); ok {
 				if l, ok2 := unabbr(gotLine); ok2 {
 					sp.fields, sp.line, sp.known = f, l, true
-					sp.nfTainted = false
 				}
 			}
 		}
